@@ -20,7 +20,7 @@ constexpr auto stable_partition(BidirIt f, BidirIt l, Predicate p) -> BidirIt
         return f;
     }
     if (n == 1) {
-        return f + p(*f);
+        return p(*f) ? f + 1 : f;
     }
     auto const m = f + (n / 2);
     return etl::rotate(etl::stable_partition(f, m, p), m, etl::stable_partition(m, l, p));
